@@ -48,12 +48,24 @@ def make_context(table_ops):
     """table_ops: list of ('verbatim',) or (char, code) applied to a fresh Context."""
     from plasTeX.Context import Context
     c = Context()
+    # the table in force is all that matters, not how it was reached: send two characters through other categories and back
+    # ('1' via invalid to other, 'q' via invalid and active to letter) before the table is set up
+    c.catcode('1', 15)
+    c.catcode('1', 12)
+    c.catcode('q', 15)
+    c.catcode('q', 13)
+    c.catcode('q', 11)
     for op in table_ops:
         if op[0] == 'verbatim':
             c.setVerbatimCatcodes()
         else:
+            if op[1] != 15 and (ord(op[0]) + op[1]) % 2:
+                c.catcode(op[0], 15)        # a detour on the way to the final category
             c.catcode(op[0], op[1])
     return c
+
+
+TABLE_MISMATCH = []
 
 
 def table_family(tier, seed, allchars):
@@ -70,9 +82,25 @@ def table_family(tier, seed, allchars):
             ops.append((c, k))
         fam.append(('rand%d' % i, ops))
     out = []
+    from plasTeX.Context import Context
     for name, ops in fam:
         ctx = make_context(ops)
-        cat = dict((sym(c), int(ctx.whichCode(c))) for c in allchars)
+        # the table the specification is given: the default table of a fresh context with the assignments applied by the rule
+        # "the last assignment to a character wins" -- NOT read back from the context under test, whose bookkeeping is part of
+        # what is checked (a mismatch is reported by run() as a violation)
+        if ops and ops[0][0] == 'verbatim':
+            fresh = Context()
+            fresh.setVerbatimCatcodes()
+            rest = ops[1:]
+        else:
+            fresh = Context()
+            rest = ops
+        cat = dict((sym(c), int(fresh.whichCode(c))) for c in allchars)
+        for c, k in rest:
+            cat[sym(c)] = k
+        real = dict((sym(c), int(ctx.whichCode(c))) for c in allchars)
+        if real != cat:
+            TABLE_MISMATCH.append((name, ops, dict((k, (real[k], cat[k])) for k in cat if real[k] != cat[k])))
         if cat['LF'] in (9, 15) or cat[sym(decode('\n'))] in (9, 15):
             raise MachineryError('table family violates the LF assumption')
         # category 5 only for the line feed (NF-LEX x3)
@@ -237,6 +265,9 @@ def run(chk):
                        'catcode() calls, so the tables are the real ones by construction']
     allc = closure(BASE)
     tables = table_family(tier, seed, allc)
+    for name, ops, diff in TABLE_MISMATCH:
+        chk.violation('table:history', 'after the category assignments %s (each character possibly sent through other categories first) the context '
+                      'classifies %s (real, expected by "the last assignment wins")' % (ops, diff), {'table': name, 'ops': ops})
     _TABLES = dict((t['id'], t) for t in tables)
     choices = [('@', 11), ('%', 12), ('~', 12), ('\\', 12), ('a', 13), ('^', 12), (' ', 12), ('\n', 12)]
 
